@@ -94,7 +94,14 @@ fn resolve_iteratively(
         iter_count += 1;
 
         let is_first_iteration = iter_count == 1;
-        let is_last_iteration = iter_count == max_iterations;
+
+        // While the enclosing pass may still guess (e.g. a global
+        // label declared further ahead is not known yet), the block
+        // may guess as well: an unresolved block is reported as
+        // unknown below and retried in the next outer pass
+        let is_last_iteration =
+            iter_count == max_iterations &&
+            !ctx.can_guess();
 
         let result = resolve_once(
             opts,
@@ -124,7 +131,7 @@ fn resolve_iteratively(
         position_at_start,
         labels,
         false,
-        true)?;
+        !ctx.can_guess())?;
 
     if !result.unstable
     {
